@@ -333,7 +333,7 @@ class Gaussian(Distribution):
             else:
                 perturbation = spa.linalg.spsolve(self.sqrtprec, e)
         else:
-            if np.allclose(self.sqrtprec, np.tril(self.sqrtprec)): # matrix is triangular
+            if not np.any(np.triu(self.sqrtprec, 1)): # matrix is (exactly) lower triangular; a tolerance would discard small entries above the diagonal
                 perturbation = splinalg.solve_triangular(self.sqrtprec, e, lower=True)
             else:
                 perturbation = splinalg.solve(self.sqrtprec, e)
